@@ -159,12 +159,19 @@ Definition vsum (v : vec) : Q := fold_right Qplus 0 v.
 Definition vabs (v : vec) : vec := map Qabs v.
 Definition vmaxabs (v : vec) : Q := fold_right (fun a m => if Qle_bool m (Qabs a) then Qabs a else m) 0 v.
 
-(* the normal equations N x = rhs of the weighted problem D hold at sol up to tol, relative to the size of the terms *)
+(* comparisons relative to a given scale s (no absolute term: valid at any absolute scale of the data) *)
+Definition qclose_s (tol s a b : Q) : bool := Qle_bool (Qabs (a - b)) (tol * (s + Qabs b)).
+(* ... relative to the largest entry of the reference *)
+Definition vclose_max (tol : Q) (u ref : vec) : bool := vclose (qclose_s tol (vmaxabs ref)) u ref.
+Definition mclose_max (tol : Q) (A R : mat) : bool := mclose (qclose_s tol (vmaxabs (map vmaxabs R))) A R.
+
+(* the normal equations N x = rhs of the weighted problem D hold at sol up to tol, purely relative to the size of the
+   terms of each equation (no absolute term: the test means the same at any absolute scale of weights and data) *)
 Definition grad_small (tol : Q) (m : nat) (D : list obs) (sol : vec) : bool :=
   let N := normal_mat m D in
   let rhs := normal_rhs m D in
   forallb (fun p => let '(r, b) := p in
-             Qle_bool (Qabs (dot r sol - b)) (tol * (dot (vabs r) (vabs sol) + Qabs b) + tol * tol))
+             Qle_bool (Qabs (dot r sol - b)) (tol * (dot (vabs r) (vabs sol) + Qabs b)))
           (combine N rhs)
   && Nat.eqb (length sol) m.
 
